@@ -174,6 +174,51 @@ def r05_2(run):
            norm(vc[0].value)[:70] if vc else "not found")
 
 
+def r05_6(run):
+    """building the placeholder graph must leave the *original* tensors untouched (apart from re-routing their consumers), so that
+    restore_old_graph can undo it"""
+    MUT = {"clear", "append", "extend", "insert", "pop", "remove", "add", "discard", "update"}
+    for q in (f"{DUP}.DuplicatingGraph._duplicate_graph", f"{DUP}.DuplicatingGraph.__init__", f"{DUP}.make_placeholder_tensor",
+              f"{DUP}.DuplicatingGraph._record_mapping"):
+        fi = anchor_func(run, q)
+        params = [a.arg for a in fi.node.args.args if a.arg != "self"] + [a.arg for a in fi.node.args.kwonlyargs]
+        public = {p for p in params if p not in ("placeholder",)}
+        # loop variables over a public tensor's view children are public tensors too; aliases of their containers count
+        changed = True
+        containers = set()
+        while changed:
+            changed = False
+            for n in own_nodes(fi.node):
+                if isinstance(n, ast.For) and isinstance(n.target, ast.Name) and isinstance(n.iter, ast.Attribute) \
+                        and isinstance(n.iter.value, ast.Name) and n.iter.value.id in public and n.target.id not in public:
+                    public.add(n.target.id)
+                    changed = True
+                if isinstance(n, ast.Assign) and assigned_name(n) and isinstance(n.value, ast.Attribute) and isinstance(n.value.value, ast.Name) \
+                        and n.value.value.id in public and assigned_name(n) not in containers:
+                    containers.add(assigned_name(n))
+                    changed = True
+        bad = []
+        for n in own_nodes(fi.node):
+            if isinstance(n, (ast.Assign, ast.AugAssign, ast.Delete)):
+                for t in (n.targets if not isinstance(n, ast.AugAssign) else [n.target]):
+                    if isinstance(t, (ast.Attribute, ast.Subscript)):
+                        root = t
+                        while isinstance(root, (ast.Attribute, ast.Subscript)):
+                            root = root.value
+                        if isinstance(root, ast.Name) and (root.id in public or root.id in containers):
+                            bad.append(n)
+            if isinstance(n, ast.Call) and isinstance(n.func, ast.Attribute) and n.func.attr in MUT:
+                root = n.func.value
+                while isinstance(root, (ast.Attribute, ast.Subscript)):
+                    root = root.value
+                if isinstance(root, ast.Name) and (root.id in containers or (root.id in public and isinstance(n.func.value, ast.Attribute))):
+                    bad.append(n)
+        run.ob("R05.6", loc(fi, bad[0] if bad else fi.node), fi.short, "placeholder-graph construction does not modify the original tensors", not bad,
+               f"only placeholders / the graph's own maps are written (public names tracked: {sorted(public)})" if not bad else
+               f"`{norm(bad[0])[:60]}` changes an original tensor while the graph is duplicated; restore_old_graph does not undo it, so after a failed "
+               f"in-place update the view family is no longer connected")
+
+
 def r05_3(run):
     before = len(run.obligations)
     c13.r13_2(run)
@@ -249,6 +294,7 @@ def check(run):
              "the graph duplication; operands are placeholders", floor=4)
     run.rule("R05.2", "placeholders mirror the originals and take over their consumers; every member of the view family gets one", floor=8)
     run.rule("R05.3", "ordering/rollback: duplication dominates the kernel, kernel dominates every mirror (= R13.2)", floor=5)
+    run.rule("R05.6", "building the placeholder graph leaves the original tensors untouched", floor=4)
     run.rule("R05.5", "where-masks are applied by broadcasting arithmetic, never as an index", floor=2)
     run.rule("R05.4", "ApplyMask / UnView glue ops are created under exactly their conditions with the placeholder operands", floor=3)
     r05_1(run)
@@ -256,3 +302,4 @@ def check(run):
     r05_3(run)
     r05_4(run)
     r05_5(run)
+    r05_6(run)
